@@ -341,7 +341,7 @@ def c01_cols(ctx, case):
 # the small shapes, enumerated (square and near-square matrices included: rows == columns is where an orientation test by
 # shape cannot tell the two layouts apart)
 def enum_cols_grid(tier):
-    for N in range(2, 13 if tier == "quick" else 25):
+    for N in range(1, 13 if tier == "quick" else 25):
         for c in sorted({1, 2, 3, N - 1, N, N + 1} - {0}):
             for cplx in (False, True):
                 for name in ("hamming", "blackman", "bartlett"):
@@ -353,7 +353,7 @@ def enum_cols_grid(tier):
 
 
 @sub("C01.cols_grid", enum=enum_cols_grid, exhaustive=True,
-     doc="the 2-D clause on every small shape N x c with c in {1, 2, 3, N-1, N, N+1} (N = 2..12; ..24 thorough), three windows, "
+     doc="the 2-D clause on every small shape N x c with c in {1, 2, 3, N-1, N, N+1} (N = 1..12; ..24 thorough), three windows, "
          "NFFT default and N+3")
 def c01_cols_grid(ctx, case):
     c01_cols(ctx, case)
